@@ -91,6 +91,9 @@ def check_result(ctx, d, pgpy, entries, entries2=None, bt=None):
     case = {'op': 'result', 'entries': list(entries), 'and': None if entries2 is None else list(entries2)}
     if entries2 is not None:
         sv2 = mk_result(pgpy, entries2)
+        if (len(entries) + len(entries2)) % 2:
+            # the verdict and the views were READ before the merge: they must follow the merged entries afterwards
+            _ = (bool(sv), bool(sv2), list(sv.good_signatures), list(sv.bad_signatures), repr(sv))
         sv &= sv2
         cmd = 'and %s %s' % (','.join(hn(e) if e != 'n' else 'n' for e in entries) or '-', ','.join(hn(e) if e != 'n' else 'n' for e in entries2) or '-')
     else:
@@ -397,6 +400,20 @@ def same_object_histories(ctx, pgpy, names):
             steps.append(('good-before', bool(pub.verify('history text', sig)), True))
             steps.append(('wrong-before', bool(pub.verify('history text', bad)), False))
             steps.append(('good-again', bool(pub.verify('history text', sig)), True))
+            # the SAME signature object, after it verified well, over other data (and under a key that did not make it)
+            steps.append(('same-sig-other-text', bool(pub.verify('history text.', sig)), False))
+            steps.append(('same-sig-other-bytes', bool(pub.verify(b'History text', sig)), False))
+            steps.append(('same-sig-right-text-again', bool(pub.verify('history text', sig)), True))
+            # a result object that was READ (bool / repr), then merged with a failing one, then read again
+            r1 = pub.verify('history text', sig)
+            seen1 = (bool(r1), repr(r1) is not None)
+            r1 &= pub.verify('history text', bad)
+            steps.append(('read-then-merge-bad', bool(r1), False))
+            steps.append(('read-then-merge-bad-lists', len(list(r1.bad_signatures)) == 1 and len(list(r1.good_signatures)) == 1, True))
+            r2 = pub.verify('history text', bad)
+            seen2 = bool(r2)
+            r2 &= pub.verify('history text', sig)
+            steps.append(('bad-read-then-merge-good', bool(r2), False))
             # the key expires: a newer self-certification with an expiry in the past is merged into the SAME objects
             uid = k.userids[0]
             newsig = k.certify(uid, key_expiration=timedelta(seconds=5), usage={F.Sign, F.Certify}, created=K.T0 + timedelta(seconds=60))
